@@ -199,4 +199,247 @@ theorem readlineSocket_suffix (buf : List Bytes) (evs : List Ev) : (readlineSock
   · exact go_suffix evs buf
   · simp
 
+
+/-! ### the specification (cut after each newline) and the shape of what a sequence of calls returns -/
+set_option linter.unusedSimpArgs false
+
+/-- the specification: cut a byte stream after each newline (an unterminated tail, if any, comes last) -/
+def splitGo : Bytes → Bytes → List Bytes
+  | cur, [] => if cur.isEmpty then [] else [cur]
+  | cur, b :: bs => if b = NL then (cur ++ [b]) :: splitGo [] bs else splitGo (cur ++ [b]) bs
+def splitNL (bs : Bytes) : List Bytes := splitGo [] bs
+
+/-- exactly one newline-terminated line -/
+def OneLine (l : Bytes) : Prop := l.getLast? = some NL ∧ NL ∉ l.dropLast
+
+theorem splitGo_noNL : ∀ (t cur : Bytes), NL ∉ t → splitGo cur t = if (cur ++ t).isEmpty then [] else [cur ++ t]
+  | [], cur, _ => by simp [splitGo]
+  | b :: bs, cur, h => by
+      have hb : ¬ b = NL := fun e => h (by simp [e])
+      have hbs : NL ∉ bs := fun e => h (by simp [e])
+      simp only [splitGo, hb, if_false]
+      rw [splitGo_noNL bs (cur ++ [b]) hbs]
+      simp
+
+theorem splitGo_oneLine : ∀ (l cur T : Bytes), OneLine l → splitGo cur (l ++ T) = (cur ++ l) :: splitGo [] T
+  | [], cur, T, h => by simp [OneLine] at h
+  | [b], cur, T, h => by
+      have : b = NL := by simpa [OneLine] using h.1
+      simp [splitGo, this]
+  | b :: c :: r, cur, T, h => by
+      obtain ⟨h1, h2⟩ := h
+      have hb : ¬ b = NL := by
+        intro e; apply h2; rw [List.dropLast_cons_of_ne_nil (by simp)]; simp [e]
+      have hrest : OneLine (c :: r) := by
+        refine ⟨by simpa [List.getLast?_cons_cons] using h1, ?_⟩
+        intro hm; apply h2
+        rw [List.dropLast_cons_of_ne_nil (by simp)]; exact List.mem_cons_of_mem _ hm
+      have := splitGo_oneLine (c :: r) (cur ++ [b]) T hrest
+      rw [show (b :: c :: r) ++ T = b :: ((c :: r) ++ T) from rfl, splitGo]
+      simp only [hb, if_false]
+      rw [this]; simp
+
+/-- **Uniqueness of the cut**: any list of one-line pieces, optionally followed by a non-empty piece without
+    newline, whose concatenation is `S`, *is* `S` cut after each newline. -/
+theorem split_unique : ∀ (ls : List Bytes) (tail : Bytes), (∀ l ∈ ls, OneLine l) → NL ∉ tail →
+    splitNL (ls.flatten ++ tail) = ls ++ (if tail.isEmpty then [] else [tail])
+  | [], tail, _, ht => by simp [splitNL, splitGo_noNL tail [] ht]
+  | l :: ls, tail, h, ht => by
+      have hl := h l (by simp)
+      have ih := split_unique ls tail (fun x hx => h x (by simp [hx])) ht
+      simp only [splitNL, List.flatten_cons, List.append_assoc] at ih ⊢
+      rw [splitGo_oneLine l [] _ hl, ih]; simp
+
+
+theorem noNL_flatten {buf : List Bytes} (h : NoNL buf) : NL ∉ buf.flatten := by
+  intro hm; obtain ⟨c, hc, hx⟩ := List.mem_flatten.mp hm; exact h c hc hx
+
+/-- what one pass of the read loop can return, precisely -/
+theorem go_kinds : ∀ (evs : List Ev) (buf : List Bytes), NoNL buf →
+    match (go buf evs).1 with
+    | .line l => OneLine l ∨ (NL ∉ l ∧ l ≠ [] ∧ (go buf evs).2.1 = [] ∧ (go buf evs).2.2.head? = some .eof)
+    | .eofR => (go buf evs).2.1 = [] ∧ (go buf evs).2.2.head? = some .eof ∧
+               buf.flatten ++ evBytes evs = evBytes (go buf evs).2.2
+    | .empty => NoNL (go buf evs).2.1
+  | [], buf, h => by simpa [go] using h
+  | .again :: evs, buf, h => by simpa [go] using h
+  | .eof :: evs, buf, h => by
+      by_cases he : buf.flatten.isEmpty = true
+      · have : buf.flatten = [] := by simpa using he
+        simp only [go, he, if_true]
+        simp [evBytes, this]
+      · simp only [go, he, Bool.false_eq_true, if_false]
+        right
+        exact ⟨noNL_flatten h, by simpa using he, by simp⟩
+  | .chunk b bs :: evs, buf, h => by
+      have hok := bufOk_append_of_noNL h (b :: bs)
+      by_cases he : (readlineBuf (buf ++ [b :: bs])).1.isEmpty = true
+      · simp only [go, he, if_true]
+        have he' : (readlineBuf (buf ++ [b :: bs])).1 = [] := by simpa using he
+        obtain ⟨hno, heq⟩ := readlineBuf_empty_noNL hok he'
+        rw [heq]
+        have ih := go_kinds evs (buf ++ [b :: bs]) hno
+        cases hr : (go (buf ++ [b :: bs]) evs).1 <;> simp only [hr] at ih ⊢
+        · exact ih
+        · exact ih
+        · refine ⟨ih.1, ih.2.1, ?_⟩
+          rw [← ih.2.2]; simp [evBytes]
+      · simp only [go, he, Bool.false_eq_true, if_false]
+        have hne' : (readlineBuf (buf ++ [b :: bs])).1 ≠ [] := by simpa using he
+        obtain ⟨l1, l2, _⟩ := readlineBuf_line hok hne'
+        exact Or.inl ⟨l1, l2⟩
+
+
+def lineBytes : List Res → List Bytes
+  | [] => []
+  | .line l :: rs => l :: lineBytes rs
+  | _ :: rs => lineBytes rs
+
+theorem readlineSocket_kinds (buf : List Bytes) (evs : List Ev) (hok : BufOk buf) :
+    match (readlineSocket buf evs).1 with
+    | .line l => OneLine l ∨ (NL ∉ l ∧ l ≠ [] ∧ (readlineSocket buf evs).2.1 = [] ∧ (readlineSocket buf evs).2.2.head? = some .eof)
+    | .eofR => (readlineSocket buf evs).2.1 = [] ∧ (readlineSocket buf evs).2.2.head? = some .eof
+    | .empty => True := by
+  by_cases he : (readlineBuf buf).1.isEmpty = true
+  · have he' : (readlineBuf buf).1 = [] := by simpa using he
+    obtain ⟨hno, _⟩ := readlineBuf_empty_noNL hok he'
+    have := go_kinds evs buf hno
+    simp only [readlineSocket, he, if_true]
+    cases hr : (go buf evs).1 <;> simp only [hr] at this ⊢
+    case line l => exact this
+    case eofR => exact ⟨this.1, this.2.1⟩
+  · have hne : (readlineBuf buf).1 ≠ [] := by simpa using he
+    obtain ⟨l1, l2, _⟩ := readlineBuf_line hok hne
+    simp only [readlineSocket, he, Bool.false_eq_true, if_false]
+    exact Or.inl ⟨l1, l2⟩
+
+theorem readlineSocket_bufOk (buf : List Bytes) (evs : List Ev) (hok : BufOk buf) :
+    BufOk (readlineSocket buf evs).2.1 := by
+  simp only [readlineSocket]
+  split
+  · rename_i he
+    have he' : (readlineBuf buf).1 = [] := by simpa using he
+    obtain ⟨hno, _⟩ := readlineBuf_empty_noNL hok he'
+    exact (go_spec evs buf hno).2.1
+  · rename_i hne
+    have hne' : (readlineBuf buf).1 ≠ [] := by simpa using hne
+    exact (readlineBuf_line hok hne').2.2
+
+/-- once the stream has ended and the buffer is empty, every further call reports end-of-stream -/
+theorem calls_after_eof (n : Nat) (es : List Ev) : lineBytes (calls n [] (.eof :: es)).1 = [] ∧
+    (calls n [] (.eof :: es)).2.1 = [] ∧ (calls n [] (.eof :: es)).2.2 = .eof :: es := by
+  induction n with
+  | zero => simp [calls, lineBytes]
+  | succ n ih =>
+    have h1 : readlineSocket [] (.eof :: es) = (.eofR, [], .eof :: es) := by
+      simp [readlineSocket, readlineBuf, go]
+    simp only [calls, h1, lineBytes]
+    exact ih
+
+/-- shape of what any number of calls returns: one-line pieces, then at most one unterminated tail (delivered when
+    the peer closes), after which nothing is buffered -/
+theorem calls_shape (n : Nat) : ∀ (buf : List Bytes) (evs : List Ev), BufOk buf →
+    ∃ (ls : List Bytes) (tail : Bytes), lineBytes (calls n buf evs).1 = ls ++ (if tail.isEmpty then [] else [tail]) ∧
+      (∀ l ∈ ls, OneLine l) ∧ NL ∉ tail ∧ (tail ≠ [] → (calls n buf evs).2.1 = []) := by
+  induction n with
+  | zero => intro buf evs _; exact ⟨[], [], by simp [calls, lineBytes], by simp, by simp, by simp⟩
+  | succ n ih =>
+    intro buf evs hok
+    have hok' := readlineSocket_bufOk buf evs hok
+    have hk := readlineSocket_kinds buf evs hok
+    simp only [calls]
+    cases hr : (readlineSocket buf evs).1 with
+    | empty =>
+      obtain ⟨ls, tail, h1, h2, h3, h4⟩ := ih _ _ hok'
+      exact ⟨ls, tail, by simpa [lineBytes] using h1, h2, h3, h4⟩
+    | eofR =>
+      obtain ⟨ls, tail, h1, h2, h3, h4⟩ := ih _ _ hok'
+      exact ⟨ls, tail, by simpa [lineBytes] using h1, h2, h3, h4⟩
+    | line l =>
+      simp only [hr] at hk
+      rcases hk with h1l | ⟨hn, hne, hb, hh⟩
+      · obtain ⟨ls, tail, h1, h2, h3, h4⟩ := ih _ _ hok'
+        refine ⟨l :: ls, tail, by simp [lineBytes, h1], ?_, h3, h4⟩
+        intro x hx; rcases List.mem_cons.mp hx with rfl | hx
+        · exact h1l
+        · exact h2 x hx
+      · -- the unterminated tail: afterwards only end-of-stream
+        cases hev : (readlineSocket buf evs).2.2 with
+        | nil => simp [hev] at hh
+        | cons e es =>
+          simp [hev] at hh; subst hh
+          have := calls_after_eof n es
+          refine ⟨[], l, ?_, by simp, hn, ?_⟩
+          · simp [lineBytes, hb, hev, this.1, hne]
+          · intro _
+            have h2 := this.2.1
+            rw [hb]; exact h2
+
+
+theorem lineBytes_flatten : ∀ rs : List Res, (lineBytes rs).flatten = (rs.map Res.bytes).flatten
+  | [] => rfl
+  | .line l :: rs => by simp [lineBytes, Res.bytes, lineBytes_flatten rs]
+  | .empty :: rs => by simp [lineBytes, Res.bytes, lineBytes_flatten rs]
+  | .eofR :: rs => by simp [lineBytes, Res.bytes, lineBytes_flatten rs]
+
+theorem calls_suffix (n : Nat) : ∀ (buf : List Bytes) (evs : List Ev), (calls n buf evs).2.2 <:+ evs := by
+  induction n with
+  | zero => intro buf evs; simp [calls]
+  | succ n ih =>
+    intro buf evs
+    simp only [calls]
+    exact (ih _ _).trans (readlineSocket_suffix buf evs)
+
+/-- once end-of-stream has been reported nothing is buffered and the stream stays at its end -/
+theorem calls_eofR_final (n : Nat) : ∀ (buf : List Bytes) (evs : List Ev), BufOk buf →
+    Res.eofR ∈ (calls n buf evs).1 → (calls n buf evs).2.1 = [] ∧ (calls n buf evs).2.2.head? = some .eof := by
+  induction n with
+  | zero => intro buf evs _ h; simp [calls] at h
+  | succ n ih =>
+    intro buf evs hok h
+    have hok' := readlineSocket_bufOk buf evs hok
+    have hk := readlineSocket_kinds buf evs hok
+    simp only [calls, List.mem_cons] at h ⊢
+    cases hr : (readlineSocket buf evs).1 with
+    | eofR =>
+      simp only [hr] at hk
+      cases hev : (readlineSocket buf evs).2.2 with
+      | nil => simp [hev] at hk
+      | cons e es =>
+        have he : e = .eof := by simpa [hev] using hk.2
+        subst he
+        have := calls_after_eof n es
+        rw [hk.1]
+        exact ⟨this.2.1, by rw [this.2.2]; rfl⟩
+    | line l =>
+      rcases h with h | h
+      · rw [hr] at h; cases h
+      · exact ih _ _ hok' h
+    | empty =>
+      rcases h with h | h
+      · rw [hr] at h; cases h
+      · exact ih _ _ hok' h
+
+
+theorem evBytes_append_eof : ∀ evs : List Ev, evBytes (evs ++ [.eof]) = evBytes evs
+  | [] => by simp [evBytes]
+  | .chunk b bs :: es => by simp [evBytes, evBytes_append_eof es]
+  | .again :: es => by simp [evBytes, evBytes_append_eof es]
+  | .eof :: es => by simp [evBytes, evBytes_append_eof es]
+
+/-- a suffix of `evs ++ [eof]` that starts with `eof`, when `evs` holds no `eof`, is just `[eof]` -/
+theorem suffix_eof_last : ∀ (evs pre es : List Ev), Ev.eof ∉ evs → pre ++ .eof :: es = evs ++ [.eof] → es = []
+  | [], pre, es, _, h => by
+      have := congrArg List.length h
+      simp at this
+      cases es with
+      | nil => rfl
+      | cons x xs => simp at this; omega
+  | x :: xs, [], es, hne, h => by
+      simp at h
+      exact absurd (by simp [← h.1]) hne
+  | x :: xs, p :: ps, es, hne, h => by
+      simp at h
+      exact suffix_eof_last xs ps es (fun hm => hne (by simp [hm])) h.2
+
 end GscribModel.Socket
